@@ -249,7 +249,51 @@ fn soup(seed: u64, n: usize, maxlen: usize) {
     for (k, c) in &counts { println!("== {k}: {c}"); for f in &ex[k] { println!("    {f}"); } }
 }
 
+
+fn damage_run(seed: u64, n: usize) {
+    let mut rng = Rng(seed.wrapping_mul(0x9E3779B97F4A7C15) | 1);
+    std::panic::set_hook(Box::new(|_| {}));
+    let mut accepted: BTreeMap<String, Vec<String>> = BTreeMap::new();
+    let mut total = 0usize;
+    for _ in 0..n {
+        let table = gen_table(&mut rng, 4);
+        TABLE.with(|t| *t.borrow_mut() = table.clone());
+        let tree = gen_tree(&mut rng, &table, 3, 5);
+        let text = render(&tree, &table, &mut rng, true);
+        // positions outside braces
+        let chars: Vec<(usize, char)> = text.char_indices().collect();
+        let mut outside = vec![]; let mut depth = 0;
+        for (i, c) in &chars { if *c == '{' { depth += 1; } if depth == 0 { outside.push(*i); } if *c == '}' { depth -= 1; } }
+        let mut variants: Vec<(String, String)> = vec![];
+        for &i in &outside { let c = text[i..].chars().next().unwrap();
+            if c == '(' || c == ')' { let mut t = text.clone(); t.remove(i); variants.push(("del-paren".into(), t)); }
+            for ins in ["(", ")", "$", "?", "@", "\\", "~", "'", "\t", "\n"] { let mut t = text.clone(); t.insert_str(i, ins); variants.push((format!("ins {ins:?}"), t)); }
+        }
+        for ins in ["(", ")", "$"] { let mut t = text.clone(); t.push_str(ins); variants.push((format!("app {ins:?}"), t)); }
+        for o in table.iter().filter(|o| o.bin.is_some()) { variants.push(("app-binop".into(), format!("{text} {}", o.name))); variants.push(("app-binop-sp".into(), format!("{text} {} ", o.name))); }
+        // extra operand after each operand token end (digit or identifier char or '}' or ')') when next char is not part of same token
+        let b = text.as_bytes();
+        for i in 0..b.len() { let c = b[i] as char; let nxt = if i + 1 < b.len() { b[i + 1] as char } else { ' ' };
+            let in_out = outside.contains(&i);
+            let is_operand_end = (c.is_ascii_digit() && !nxt.is_ascii_digit() && nxt != '.' && in_out) || (matches!(c, 'x' | 'y' | 'z') && in_out && !nxt.is_alphanumeric() && !(i > 0 && (b[i - 1] as char).is_alphabetic())) || c == '}' || (c == ')' && in_out);
+            if is_operand_end { for ins in [" 7", " w", " {q}", " (7)"] { let mut t = text.clone(); t.insert_str(i + 1, ins); variants.push((format!("operand-after {ins:?}"), t)); } }
+            let prv = if i > 0 { b[i - 1] as char } else { ' ' };
+            let is_operand_start = in_out && ((c.is_ascii_digit() && !prv.is_ascii_digit() && prv != '.') || (matches!(c, 'x' | 'y' | 'z') && !prv.is_alphanumeric() && prv != '{' && !nxt.is_alphabetic()) || c == '{');
+            if is_operand_start { for ins in ["7 ", "w ", "{q} "] { let mut t = text.clone(); t.insert_str(i, ins); variants.push((format!("operand-before {ins:?}"), t)); } }
+        }
+        for (kind, t) in variants {
+            total += 1;
+            let t2 = t.clone();
+            let r = std::panic::catch_unwind(move || (FX::parse(&t2).is_ok(), FX::parse_wo_compile(&t2).is_ok(), DX::parse(&t2).is_ok()));
+            match r { Ok((false, false, false)) => {}, other => { let v = accepted.entry(kind).or_default(); if v.len() < 6 { v.push(format!("{text:?} -> {t:?}: {other:?}")); } else { v.push(String::new()); } } }
+        }
+    }
+    println!("damage variants {total}");
+    for (k, v) in &accepted { println!("== ACCEPTED {k}: {}", v.len()); for x in v.iter().filter(|x| !x.is_empty()) { println!("    {x}"); } }
+}
+
 fn main() {
+    if std::env::var("DAMAGE").is_ok() { let a: Vec<String> = std::env::args().collect(); damage_run(a[1].parse().unwrap(), a[2].parse().unwrap()); return; }
     if std::env::var("SOUP").is_ok() { let a: Vec<String> = std::env::args().collect(); soup(a[1].parse().unwrap(), a[2].parse().unwrap(), a[3].parse().unwrap()); return; }
     let args: Vec<String> = std::env::args().collect();
     let seed: u64 = args.get(1).map(|s| s.parse().unwrap()).unwrap_or(1);
